@@ -279,9 +279,7 @@ def replay(path):
         sch = case["model"]
         if schemagen.to_xml(sch) != xml:
             print("replay: note: model and schema_xml of the replay file differ; expectations follow the model")
-        sp = os.path.join(work, "schema.xml")
-        with open(sp, "w") as f:
-            f.write(xml)
+        sp = schemagen.write_schema(sch, work)   # (re-creates included fragments next to the schema)
         out_dir = os.path.join(work, "out")
         rc, out = common.run_sbeppc(common.build_sbeppc("plain"), sp, out_dir)
         if rc != 0:
